@@ -32,58 +32,14 @@ typedef const char *It;
 // ---------------------------------------------------------------------------------------------------
 // oracle (spec functions)
 
-static bool sp_ws(char c)    { return c == ' ' || c == '\t' || c == '\n' || c == '\v' || c == '\f' || c == '\r'; }
-static bool sp_digit(char c) { return c >= '0' && c <= '9'; }
-static bool sp_sign(char c)  { return c == '+' || c == '-'; }
-
-enum { F_LEAD, F_SIGN, F_INT, F_FRAC, F_DOT, F_E, F_ESIGN, F_EXP, F_TRAIL, F_REJ };
-
-//  ws* [+-]? ( D+ ('.' D*)? | '.' D+ ) ( [eE] [+-]? D+ )? ws*
-static bool ref_float(const char *s, int n)
-{
-  int st = F_LEAD;
-  for (int i = 0; i < n; i++) {
-    const char c = s[i];
-    switch (st) {
-    case F_LEAD:  st = sp_ws(c) ? F_LEAD : sp_sign(c) ? F_SIGN : sp_digit(c) ? F_INT : c == '.' ? F_DOT : F_REJ; break;
-    case F_SIGN:  st = sp_digit(c) ? F_INT : c == '.' ? F_DOT : F_REJ; break;
-    case F_INT:   st = sp_digit(c) ? F_INT : c == '.' ? F_FRAC : (c == 'e' || c == 'E') ? F_E : sp_ws(c) ? F_TRAIL : F_REJ; break;
-    case F_FRAC:  st = sp_digit(c) ? F_FRAC : (c == 'e' || c == 'E') ? F_E : sp_ws(c) ? F_TRAIL : F_REJ; break;
-    case F_DOT:   st = sp_digit(c) ? F_FRAC : F_REJ; break;
-    case F_E:     st = sp_sign(c) ? F_ESIGN : sp_digit(c) ? F_EXP : F_REJ; break;
-    case F_ESIGN: st = sp_digit(c) ? F_EXP : F_REJ; break;
-    case F_EXP:   st = sp_digit(c) ? F_EXP : sp_ws(c) ? F_TRAIL : F_REJ; break;
-    case F_TRAIL: st = sp_ws(c) ? F_TRAIL : F_REJ; break;
-    default:      st = F_REJ; break;
-    }
-  }
-  return st == F_INT || st == F_FRAC || st == F_EXP || st == F_TRAIL;
-}
-
-enum { I_LEAD, I_SIGN, I_DIG, I_TRAIL, I_REJ };
-
-//  ws* [+-]? D+ ws*
-static bool ref_integer(const char *s, int n)
-{
-  int st = I_LEAD;
-  for (int i = 0; i < n; i++) {
-    const char c = s[i];
-    switch (st) {
-    case I_LEAD:  st = sp_ws(c) ? I_LEAD : sp_sign(c) ? I_SIGN : sp_digit(c) ? I_DIG : I_REJ; break;
-    case I_SIGN:  st = sp_digit(c) ? I_DIG : I_REJ; break;
-    case I_DIG:   st = sp_digit(c) ? I_DIG : sp_ws(c) ? I_TRAIL : I_REJ; break;
-    case I_TRAIL: st = sp_ws(c) ? I_TRAIL : I_REJ; break;
-    default:      st = I_REJ; break;
-    }
-  }
-  return st == I_DIG || st == I_TRAIL;
-}
+#include "ref_grammar.h"         // the oracle (shared with the native replay, units/intfloat/replay.cpp)
 
 // ---------------------------------------------------------------------------------------------------
 // harness helpers
 
+int w_off;                      // h_skip: start offset
 int w_n;                        // witness values for the native replay (read from the trace)
-char w_s[GV_L + 1];
+int w_c[GV_L + 1];            // byte i of the string as a number
 
 // an arbitrary byte string of length n <= GV_L in a heap object of exactly n bytes
 static char *mk_string(int *pn)
@@ -98,7 +54,7 @@ static char *mk_string(int *pn)
     __CPROVER_assume(c >= -1);
 #endif
     s[i] = c;
-    w_s[i] = c;
+    w_c[i] = c;
   }
 #ifdef GV_EXCL_NO_DIGIT          /* exclusion predicate of the finding "IsInteger accepts a bare sign" */
   {
@@ -127,6 +83,7 @@ void h_skip()
   int off;                                   // any sub-range [b0+off, e)
   __CPROVER_assume(off >= 0 && off <= n);
   It b = b0 + off;
+  w_off = off;
   GNU_gama::SkipWhiteSpaces(b, e);
   GV_CANARY("h_skip after call");
   __CPROVER_assert(__CPROVER_same_object(b, s), "SkipWhiteSpaces: b stays in the string object");
